@@ -97,6 +97,7 @@ def run_check(prop, tier, seed):
 
         # ---- extra legs (graphs, MBT) are plug-ins: each returns (coverage-part, mismatches)
         extra_bads = []
+        unreproduced = []
         for leg in plan.get('legs', []):
             if leg == 'apalache_masks':
                 leg = vf.apalache_masks_leg
@@ -126,7 +127,11 @@ def run_check(prop, tier, seed):
                 new, codes = vf.replay_events(harness, evs, scratch, module=plan.get('trace_module', 'Trace'), any_event=True)
                 codes = sorted(set(codes))
                 if not codes:
-                    raise vf.HarnessError('graph disagreement at %s is not reproduced by the trace specification' % note)
+                    # TLC saw the recorded graph disagree with the specification, but the point behaves
+                    # correctly when executed alone (the code under test keeps state between calls?).
+                    # Not a verdict by itself; the run cannot claim that the property held either.
+                    unreproduced.append(note)
+                    continue
                 for c in codes:
                     pending.append((c, evs, new[-1], note, None))
             elif code == 'C19.race':
@@ -167,6 +172,9 @@ def run_check(prop, tier, seed):
         # The trace specification lists at most 25 failures per demand code and chunk. Unlisted
         # failures share their code with listed ones; that only matters when every listed failure of
         # a claimed code was explained by a known finding (the unlisted ones might not be).
+        if unreproduced and not violations:
+            raise vf.HarnessError('%d graph disagreements were not reproduced when the point was executed alone (first: %s); '
+                                  'no other demand failed, so there is no verdict' % (len(unreproduced), unreproduced[0]))
         if overflow and not violations:
             # a finding identified by its own demand code alone (empty match) classifies unlisted
             # failures of that code as well; only input-specific matches are affected by the cap
